@@ -1,28 +1,36 @@
 """T1 leaf translator tie (DESIGN.md 1.3), shared helper.
 
-run_t1(ctx):
-  1. builds harness/cmd/gofacts and runs `gofacts translate` on the CURRENT
-     source of the repository under test (vlib.REPO).  The translator turns a
-     fixed list of small straight-line Go functions (ot.Label.{Equal,S,SetS,
-     Mul2,Mul4,Xor,And,GetData,SetData,Bit,SetBit}, ot.NewTweak,
-     ot.{clmul64,mul128Generic}, circuit.{idxUnary,idx,makeK,makeKHalf,
-     encrypt,decrypt,encryptHalf,LabelForBit,BitFromLabel,bitLen}) into Lean
-     definitions (namespace Mpc.Gen).  A construct
-     outside its subset, or a missing function, is a translator FAILURE = a
-     broken obligation, never a skip.
-  2. installs the result as lean/MpcVerif/Gen/Leaf.lean and proves
-     MpcVerif.Proofs.GenTie (every generated definition = the hand-written
-     model on the joined 128-bit value) and one further module per property
-     whose model a leaf function belongs to (GenTieC16: BitFromLabel, GenTieC15:
-     clmul64/mul128Generic, GenTieC13: bitLen); each tie theorem is one
-     obligation and a failing module names the property concerned.
+run_t1(ctx, groups):
+  1. builds harness/cmd/gofacts and runs `gofacts translate -group G` for every
+     requested group G on the CURRENT source of the repository under test
+     (vlib.REPO).  A group (harness/cmd/gofacts/groups.go and GROUPS below) is a
+     fixed list of small Go functions that are the Go side of hand-written
+     definitions of ONE property's model; the translator turns them into Lean
+     definitions.  A construct outside its subset, or a missing function, is a
+     translator FAILURE = a broken obligation, never a skip.
+  2. installs the result as lean/MpcVerif/Gen/Leaf<G>.lean (one file per group,
+     self-contained apart from the static Gen/Prelude.lean: a callee that is
+     listed in another group is emitted again) and proves the group's tie
+     module(s) MpcVerif.Proofs.GenTie*: every generated definition equals the
+     hand-written model definition the property theorems are about.  Each tie
+     theorem is one obligation.
 
-Gen/Leaf.lean is a shared file that depends on VERIF_REPO, so installing it,
-`lake build` and the axiom audit all happen under ONE hold of the project lock
-(lean/.lake.lock): a concurrent check against another tree cannot swap the
-file between generation and build.  The file is written to a temporary name
-and renamed, and it is regenerated on every run, so the next run against /repo
-restores /repo's version.
+Attribution: a check runs the group(s) of its own property, so an edit of a Go
+function breaks the check whose model it invalidates (C01: labels and garbling
+leaves; C16: BitFromLabel; C13: bitLen; C15: clmul64 / mul128Generic; C10: gmw
+bit vectors; C11: p2p.Conn encoders; C12: mpa small paths; C20: vole helpers; ...).
+
+Gen/Leaf<G>.lean depends on VERIF_REPO, so installing it, `lake build` and the
+axiom audit all happen under ONE hold of the project lock (lean/.lake.lock): a
+concurrent check against another tree cannot swap a file between generation
+and build.  Files are written to a temporary name and renamed, only when the
+content differs, and regenerated on every run, so the next run against /repo
+restores /repo's version.  Checks of different properties touch different
+files, so they do not invalidate each other's build products.
+
+The versions generated from /repo are kept in the tree (as Gen/Leaf.lean was)
+so that a plain `lake build` of the whole library works; no Props module
+imports a generated file, so bin/setup does not depend on them.
 """
 import fcntl
 import hashlib
@@ -31,34 +39,137 @@ import re
 
 import vlib
 
-MODULE = "MpcVerif.Proofs.GenTie"
-GEN = os.path.join(vlib.LEAN, "MpcVerif", "Gen", "Leaf.lean")
+GENDIR = os.path.join(vlib.LEAN, "MpcVerif", "Gen")
 
-TIES = ["Mpc.GenTie." + t for t in [
-    "tie_Equal", "tie_NewTweak", "tie_S", "tie_SetS", "tie_Mul2", "tie_Mul4", "tie_Xor", "tie_And",
-    "tie_GetData", "tie_SetData", "tie_Bit", "tie_SetBit",
-    "tie_idxUnary", "tie_idx", "tie_makeK", "tie_makeKHalf",
-    "tie_encrypt", "tie_decrypt", "tie_encryptHalf", "tie_LabelForBit",
-    "tie_NewTweak_nat", "tie_makeK_nat", "tie_makeKHalf_nat",
-    "tie_encrypt_nat", "tie_decrypt_nat", "tie_encryptHalf_nat",
-]]
 
-# Ties of leaf functions whose hand-written model belongs to ANOTHER property: one Lean module per owning
-# property, so that a failure names the property whose model no longer matches the Go source.
-EXTRA = [
-    ("MpcVerif.Proofs.GenTieC16", "C01/C16", "Model/Garble.lean WireL.bitFrom: circuit.BitFromLabel",
-     ["Mpc.GenTie.tie_BitFromLabel"]),
-    ("MpcVerif.Proofs.GenTieC15", "C15", "Model/Clmul.lean: ot.clmul64, ot.mul128Generic",
-     ["Mpc.GenTie.tie_clmul64", "Mpc.GenTie.tie_mul128Generic"]),
-    ("MpcVerif.Proofs.GenTieC13", "C13", "Model/IoArg.lean: circuit.bitLen",
-     ["Mpc.GenTie.tie_bitLen"]),
+def _t(names):
+    return ["Mpc.GenTie." + n for n in names.split()]
+
+
+# group -> number of functions the translator must report (listed + callees from other groups) and the tie
+# modules: (Lean module, property whose model it ties, what, theorem names).
+GROUPS = {
+    "C01": {
+        "funcs": 20,
+        "modules": [
+            ("MpcVerif.Proofs.GenTie", "C01", "label primitives and garbling leaves: Model/LabelBV.lean, Model/Garble.lean",
+             _t("tie_Equal tie_NewTweak tie_S tie_SetS tie_Mul2 tie_Mul4 tie_Xor tie_And tie_GetData tie_SetData tie_Bit "
+                "tie_SetBit tie_idxUnary tie_idx tie_makeK tie_makeKHalf tie_encrypt tie_decrypt tie_encryptHalf "
+                "tie_LabelForBit tie_NewTweak_nat tie_makeK_nat tie_makeKHalf_nat tie_encrypt_nat tie_decrypt_nat "
+                "tie_encryptHalf_nat")),
+        ],
+        "sample": ("Mpc.GenTie.tie_makeK", "circuit.makeK", "join (Gen.makeK a b t) = Mpc.makeK (join a) (join b) t.toNat"),
+    },
+    "C16": {
+        "funcs": 2,
+        "modules": [
+            ("MpcVerif.Proofs.GenTieC16", "C01/C16", "Model/Garble.lean WireL.bitFrom: circuit.BitFromLabel",
+             _t("tie_BitFromLabel")),
+        ],
+        "sample": ("Mpc.GenTie.tie_BitFromLabel", "circuit.BitFromLabel",
+                   "Gen.C16.BitFromLabel w l = WireL.bitFrom ⟨join w.L0, join w.L1⟩ (join l)"),
+    },
+    "C15": {
+        "funcs": 2,
+        "modules": [
+            ("MpcVerif.Proofs.GenTieC15", "C15", "Model/Clmul.lean: ot.clmul64, ot.mul128Generic",
+             _t("tie_clmul64 tie_mul128Generic")),
+        ],
+        "sample": ("Mpc.GenTie.tie_clmul64", "ot.clmul64", "Gen.C15.clmul64 a b = Mpc.Clmul.clmul64 a b"),
+    },
+    "C13": {
+        "funcs": 1,
+        "modules": [
+            ("MpcVerif.Proofs.GenTieC13", "C13", "Model/IoArg.lean: circuit.bitLen",
+             _t("tie_bitLen")),
+        ],
+        "sample": ("Mpc.GenTie.tie_bitLen", "circuit.bitLen", "(Gen.C13.bitLen v).toNat = Mpc.IoArg.bitLen v.toNat"),
+    },
+    "C10": {
+        "funcs": 6,
+        "modules": [
+            ("MpcVerif.Proofs.GenTieC10", "C10", "Model/Gmw.lean bit vectors: gmw.bit, setBit, xorBitvec, expand, expandClear, copyOf",
+             _t("tie_bit tie_setBit tie_xorBitvec tie_expand tie_expandClear tie_copyOf")),
+        ],
+        "sample": ("Mpc.GenTie.tie_setBit", "gmw.setBit",
+                   "Gen.C10.setBit v i b = if i < 0 ∨ b ∉ {0,1} then none else some (Gmw.setBit v i.toNat (b == 1))"),
+    },
+    "C12": {
+        "funcs": 19,
+        "modules": [
+            ("MpcVerif.Proofs.GenTieC12", "C12",
+             "Model/Mpa.lean small paths (bits <= 64): mpa.Int.{isSmall,small,setSmall,Add,Sub,Mul,Div,Mod,And,AndNot,Or,Xor,"
+             "Lsh,Rsh,Cmp,Int64,Bit,BitLen,Sign}; the large paths are opaque parameters",
+             _t("tie_isSmall tie_small tie_setSmall tie_Add tie_Sub tie_Mul tie_Div tie_Mod tie_And tie_AndNot tie_Or tie_Xor "
+                "tie_Lsh tie_Rsh tie_Cmp tie_Int64 tie_Bit tie_BitLen tie_Sign")),
+        ],
+        "sample": ("Mpc.GenTie.tie_Div", "compiler/mpa.Int.Div",
+                   "∀ large, 0 ≤ z.bits ≤ 64 → (Gen.C12.Int.Div z x y large).map toM = Mpa.div (toM z) (toM x) (toM y)"),
+    },
+    "C11": {
+        "funcs": 7,
+        "modules": [
+            ("MpcVerif.Proofs.GenTieC11", "C11",
+             "Model/Conn.lean wire format and reservation tests: p2p.Conn.{NeedSpace,SendByte,SendUint16,SendUint32,ReceiveByte,"
+             "ReceiveUint16,ReceiveUint32}; Flush / Fill are opaque parameters",
+             _t("tie_NeedSpace tie_SendByte tie_SendUint16 tie_SendUint32 tie_ReceiveByte tie_ReceiveUint16 tie_ReceiveUint32 "
+                "tie_SendByte_room tie_SendUint16_room tie_SendUint32_room tie_ReceiveByte_room tie_ReceiveUint16_room "
+                "tie_ReceiveUint32_room wcur_wput")),
+        ],
+        "sample": ("Mpc.GenTie.tie_SendUint32", "p2p.Conn.SendUint32",
+                   "Gen.C11.Conn.SendUint32 c flush fill v = (if len(WriteBuf) < WritePos+4 then flush c else some c).bind "
+                   "(fun c1 => some (wput c1 (beBV 4 v)))   -- beBV = Conn.beList of the model"),
+    },
+    "C06": {
+        "funcs": 1,
+        "modules": [
+            ("MpcVerif.Proofs.GenTieC06", "C06", "Model/Iknp.lean xorBytes: ot.xor (column masking of IKNP)",
+             _t("tie_xor")),
+        ],
+        "sample": ("Mpc.GenTie.tie_xor", "ot.xor",
+                   "Gen.C06.xor dst src = some ((xorBytes dst src)[:min len(dst) len(src)], xorBytes dst src)"),
+    },
+    "C20": {
+        "funcs": 1,
+        "modules": [
+            ("MpcVerif.Proofs.GenTieC20", "C20", "Model/Vole.lean bytes32: vole.bytes32 (32-byte big-endian field elements)",
+             _t("tie_bytes32 tie_bytes32_nil natBytesBE_eq")),
+        ],
+        "sample": ("Mpc.GenTie.tie_bytes32", "vole.bytes32",
+                   "(Gen.C20.bytes32 (some v)).map bytes = Vole.bytes32 |v|   (none = out[32-len(b):] panics)"),
+    },
+    "C18": {
+        "funcs": 1,
+        "modules": [
+            ("MpcVerif.Proofs.GenTieC18", "C18", "Model/Sha2pc.lean pointSign: sha2pc.pointSign",
+             _t("tie_pointSign")),
+        ],
+        "sample": ("Mpc.GenTie.tie_pointSign", "sha2pc.pointSign",
+                   "Gen.C18.pointSign signs idx = resOpt (Sha2pc.pointSign signs idx)   (none = index out of range panic)"),
+    },
+}
+
+
+# Behaviour-preserving rewrites of the covered functions that are KNOWN to raise a T1 alarm (measured with three
+# rewrite batches over all functions of the groups C06 C10 C11 C12 C18 C20: renames of every local / parameter / receiver,
+# hoisting, if-chain <-> switch, index <-> range loops, inverted tests with swapped branches, early returns, inlined
+# isSmall, commuted operands, stores in another order, masks dropped where the conversion truncates anyway: 102 of 105
+# still translate and prove).  Recorded in the evidence; a change of this kind needs the tie proof extended.
+KNOWN_FALSE_ALARMS = [
+    "a helper extracted from a listed function (the callee is not in the group's list: translator failure)",
+    "calls of functions outside the subset (bits.Len64, min/max builtins, append), constants other than literals",
+    "circuit.bitLen: result-variable + break forms",
+    "gmw.copyOf / gmw.expandClear rewritten as element-wise loops (the tie proves copy / clear, not a loop invariant)",
+    "p2p.Conn.ReceiveUint32 as one or-of-shifts expression b0<<24|b1<<16|b2<<8|b3 (ReceiveUint16 in that form is proved)",
+    "while-style loops (`for cond {}`), downward loops with computed bounds, loops whose bound the body assigns",
 ]
-ALL_TIES = TIES + [t for e in EXTRA for t in e[3]]
-
-N_FUNCS = 24
 
 
-def _failing_theorems(log, module=MODULE):
+def group_ties(g):
+    return [t for m in GROUPS[g]["modules"] for t in m[3]]
+
+
+def _failing_theorems(log, module):
     """Names of the declarations of the tie module in which the build log reports errors."""
     src = os.path.join(vlib.LEAN, module.replace(".", "/") + ".lean")
     base = re.escape(os.path.basename(src))
@@ -76,40 +187,68 @@ def _failing_theorems(log, module=MODULE):
     return names
 
 
-def _fail_ties(ctx, why):
-    for t in ALL_TIES:
-        ctx.oblige("theorem %s" % t, False, why)
+def _fail_ties(ctx, groups, why):
+    for g in groups:
+        for t in group_ties(g):
+            ctx.oblige("theorem %s" % t, False, why)
 
 
-def run_t1(ctx):
-    """Regenerate Gen/Leaf.lean from vlib.REPO and prove the ties.  Returns True
+def run_t1(ctx, groups=("C01",)):
+    """Regenerate Gen/Leaf<G>.lean for every group G from vlib.REPO and prove the ties.  Returns True
     when the translator accepted the source and every tie theorem checks."""
-    binp = os.path.join(ctx.work, "gofacts")
-    rc, log = vlib.sh(["go", "build"] + ctx._modfile_args() + ["-o", binp, "./cmd/gofacts"],
-                      cwd=vlib.HARNESS, env=vlib.GOENV, timeout=900)
-    ctx.oblige("T1 translator harness/cmd/gofacts builds", rc == 0, log[-3000:])
-    if rc != 0:
-        _fail_ties(ctx, "translator does not build")
-        return False
-    os.makedirs(os.path.dirname(GEN), exist_ok=True)
-    # temporary name in the target directory (same file system; not matched by the lake glob: no .lean suffix)
-    tmp = os.path.join(os.path.dirname(GEN), ".Leaf.%d.tmp" % os.getpid())
-    try:
-        rc, log = vlib.sh([binp, "translate", "-repo", vlib.REPO, "-out", tmp], env=vlib.GOENV, timeout=300)
-        hashes = dict((m.group(1), m.group(2)) for m in re.finditer(r"^translated (\S+)\s+([0-9a-f]{16}) ", log, flags=re.M))
-        ok = rc == 0 and os.path.exists(tmp) and len(hashes) == N_FUNCS
-        ctx.oblige("T1 translator accepts the current source of the leaf functions (%d of %d functions of %s translated)"
-                   % (len(hashes) if rc == 0 else 0, N_FUNCS, vlib.REPO), ok, log[-4000:])
-        if not ok:
-            _fail_ties(ctx, "no generated definitions: the translator rejected the source (tie broken)\n" + log[-1500:])
+    groups = list(groups)
+    binp = getattr(ctx, "_gofacts", None)
+    if not binp:
+        binp = os.path.join(ctx.work, "gofacts")
+        rc, log = vlib.sh(["go", "build"] + ctx._modfile_args() + ["-o", binp, "./cmd/gofacts"],
+                          cwd=vlib.HARNESS, env=vlib.GOENV, timeout=900)
+        ctx.oblige("T1 translator harness/cmd/gofacts builds", rc == 0, log[-3000:])
+        if rc != 0:
+            _fail_ties(ctx, groups, "translator does not build")
             return False
-        new = open(tmp, "rb").read()
+        ctx._gofacts = binp
+    os.makedirs(GENDIR, exist_ok=True)
+    cov = ctx.coverage.setdefault("t1", {"regenerated_from": vlib.REPO, "groups": {},
+                                         "known_false_alarms": KNOWN_FALSE_ALARMS})
+    tmps = {}
+    proved = True
+    try:
+        for g in groups:
+            # temporary name in the target directory (same file system; not matched by the lake glob: no .lean suffix)
+            tmp = os.path.join(GENDIR, ".Leaf%s.%d.tmp" % (g, os.getpid()))
+            rc, log = vlib.sh([binp, "translate", "-repo", vlib.REPO, "-group", g, "-out", tmp], env=vlib.GOENV, timeout=300)
+            hashes = dict((m.group(1), m.group(2)) for m in re.finditer(r"^translated (\S+)\s+([0-9a-f]{16}) ", log, flags=re.M))
+            opaque = dict((m.group(1), int(m.group(2))) for m in re.finditer(r"^translated (\S+)\s+.* opaque=(\d+)$", log, flags=re.M))
+            want = GROUPS[g]["funcs"]
+            ok = rc == 0 and os.path.exists(tmp) and len(hashes) == want
+            ctx.oblige("T1 translator accepts the current source of the leaf functions of group %s (%d of %d functions of %s "
+                       "translated)" % (g, len(hashes) if rc == 0 else 0, want, vlib.REPO), ok, log[-4000:])
+            if not ok:
+                _fail_ties(ctx, [g], "no generated definitions: the translator rejected the source (tie broken)\n" + log[-1500:])
+                if os.path.exists(tmp):
+                    os.remove(tmp)
+                proved = False
+                continue
+            tmps[g] = (tmp, hashes, opaque)
+        if not tmps:
+            return False
         lock = open(os.path.join(vlib.LEAN, ".lake.lock"), "w")
         fcntl.flock(lock, fcntl.LOCK_EX)
         try:
-            old = open(GEN, "rb").read() if os.path.exists(GEN) else None
-            if old != new:
-                os.replace(tmp, GEN)
+            for g, (tmp, hashes, opaque) in tmps.items():
+                gen = os.path.join(GENDIR, "Leaf%s.lean" % g)
+                new = open(tmp, "rb").read()
+                old = open(gen, "rb").read() if os.path.exists(gen) else None
+                if old != new:
+                    os.replace(tmp, gen)
+                cov["groups"][g] = {
+                    "generated": os.path.relpath(gen, vlib.VERIF),
+                    "generated_sha256": hashlib.sha256(new).hexdigest()[:16],
+                    "changed_since_last_run": old != new,
+                    "function_source_hashes": hashes,
+                    "opaque_parameters": opaque,      # code outside the subset (large paths): universally quantified in the ties
+                    "tie_theorems": len(group_ties(g)),
+                }
             # the lock is already held: ctx.prove must not take it again
             logs = []
 
@@ -118,6 +257,7 @@ def run_t1(ctx):
                 logs.append(r[1])
                 return r
             ctx.lake = lake_locked
+
             def prove(module, ties, what):
                 nb = len(ctx.broken)
                 del logs[:]
@@ -126,41 +266,38 @@ def run_t1(ctx):
                     if b["obligation"].startswith("lake build"):
                         bad = _failing_theorems("\n".join(logs), module)
                         ctx.oblige("T1 ties still proved for the regenerated definitions (%s)" % what, False,
-                                   "proofs that fail against Gen/Leaf.lean regenerated from %s: %s\n"
+                                   "proofs that fail against the definitions regenerated from %s: %s\n"
                                    "(the Go function behind each of them no longer matches the model)"
                                    % (vlib.REPO, ", ".join(bad) or "see the lake build log"))
                         ctx.broken.insert(nb, ctx.broken.pop())     # show this summary first
                         break
                 return ok
             try:
-                proved = prove(MODULE, TIES, "label primitives and garbling leaves; models of C01/C16")
-                for module, prop, what, ties in EXTRA:
-                    ok = prove(module, ties, "model of %s, %s" % (prop, what))
-                    ctx.oblige("T1 tie of the Go leaf functions to the %s model (%s)" % (prop, what), ok,
-                               "the %s model and the current Go source of these functions no longer agree "
-                               "(or the model file of %s does not build)" % (prop, prop))
-                    proved = proved and ok
+                for g in tmps:
+                    for module, prop, what, ties in GROUPS[g]["modules"]:
+                        ok = prove(module, ties, "model of %s, %s" % (prop, what))
+                        ctx.oblige("T1 tie of the Go leaf functions to the %s model (%s)" % (prop, what), ok,
+                                   "the %s model and the current Go source of these functions no longer agree "
+                                   "(or the model file of %s does not build)" % (prop, prop))
+                        proved = proved and ok
             finally:
                 del ctx.lake
         finally:
             fcntl.flock(lock, fcntl.LOCK_UN)
             lock.close()
     finally:
-        if os.path.exists(tmp):
-            os.remove(tmp)
-    ctx.coverage["t1"] = {
-        "generated": os.path.relpath(GEN, vlib.VERIF),
-        "generated_sha256": hashlib.sha256(new).hexdigest()[:16],
-        "regenerated_from": vlib.REPO,
-        "changed_since_last_run": old != new,
-        "function_source_hashes": hashes,
-        "tie_theorems": len(ALL_TIES),
-    }
-    if len(ctx.samples) < 6:
-        ctx.samples.append({"t1_tie": "Mpc.GenTie.tie_makeK", "go": "circuit.makeK", "source_sha": hashes.get("circuit.makeK"),
-                            "statement": "join (Gen.makeK a b t) = Mpc.makeK (join a) (join b) t.toNat"})
-    ctx.assumptions.append(
-        "T1: the gofacts translator's reading of its Go subset is trusted (uint64/uint32/int operators as BitVec "
-        "operators, Label = (D0,D1), big-endian *LabelData = one 128-bit value, cipher.Block.Encrypt = arbitrary π, "
-        "scratch buffer content after encrypt/decrypt/encryptHalf not observed)")
+        for tmp, _, _ in tmps.values():
+            if os.path.exists(tmp):
+                os.remove(tmp)
+    for g in tmps:
+        s = GROUPS[g].get("sample")
+        if s and len(ctx.samples) < 6:
+            ctx.samples.append({"t1_tie": s[0], "go": s[1], "source_sha": tmps[g][1].get(s[1]), "statement": s[2]})
+    note = ("T1: the gofacts translator's reading of its Go subset is trusted (fixed-width integer operators as BitVec "
+            "operators with Go's wrap-around, signed / and % as sdiv / srem, Label = (D0,D1), big-endian *LabelData = one "
+            "128-bit value, cipher.Block.Encrypt = arbitrary π, scratch buffer content after a call not observed; slices as "
+            "Lean arrays: distinct slice parameters do not overlap, len < 2^63; *big.Int = Option Int with Int64() = the "
+            "value mod 2^64; calls left opaque are universally quantified parameters)")
+    if note not in ctx.assumptions:
+        ctx.assumptions.append(note)
     return proved
